@@ -515,4 +515,161 @@ theorem chaosLoop_digits (sl : Nat) (ds rest : List UInt8) (hds : ∀ c ∈ ds, 
     have : 48 + d - 48 = d := by omega
     rw [this, ih (fun x hx => hds x (by simp [hx])) _ (by rw [← hstep]; exact hv), hstep]
 
+/-! ### IPv6 addresses with `::` -/
+
+/-- the text after a run of groups: nothing, or a colon (the `::`, or the separator) -/
+def ColonOrEnd (R : List UInt8) : Prop := R = [] ∨ ∃ X, R = 58 :: X
+
+theorem spanDigits10_head (H R : List UInt8) (hH : ∀ c ∈ H, c ≠ 46) (hR : ColonOrEnd R) :
+    (spanDigits 10 (H ++ R)).2.head? ≠ some 46 := by
+  induction H with
+  | nil =>
+    rcases hR with rfl | ⟨X, rfl⟩
+    · simp [spanDigits]
+    · simp [spanDigits, toDigit16_ne_colon.2]
+  | cons c H ih =>
+    have ih' := ih (fun x hx => hH x (by simp [hx]))
+    cases hd : toDigit 10 c with
+    | some d => simpa [spanDigits, hd] using ih'
+    | none => simpa [spanDigits, hd] using hH c (by simp)
+
+theorem readIpv4_none_of_span (s : List UInt8) (h : (spanDigits 10 s).2.head? ≠ some 46) : readIpv4 s = none := by
+  unfold readIpv4
+  simp only [readSep, Nat.lt_irrefl, ↓reduceIte]
+  cases hn : readNumber 10 3 255 false s with
+  | none => rfl
+  | some ar =>
+    obtain ⟨a, s1⟩ := ar
+    have hs1 : s1 = (spanDigits 10 s).2 := by
+      unfold readNumber at hn
+      simp only at hn
+      split at hn
+      · cases hn
+      · split at hn
+        · cases hn
+        · split at hn
+          · cases hn
+          · split at hn
+            · cases hn
+            · simp only [Option.some.injEq, Prod.mk.injEq] at hn; exact hn.2.symm
+    subst hs1
+    cases hr : (spanDigits 10 s).2 with
+    | nil => simp [readChar]
+    | cons c t =>
+      rw [hr] at h
+      have hc : (c == 46) = false := by simpa using h
+      simp [readChar, hc]
+
+theorem readIpv4_group (g : Nat) (R : List UInt8) (hR : ColonOrEnd R) : readIpv4 (hexText g ++ R) = none :=
+  readIpv4_none_of_span _ (spanDigits10_head _ R (by
+    intro c hc
+    obtain ⟨d, hd, rfl⟩ := hexText_digits g c hc
+    exact (hexDigit_facts d hd).2.2.1) hR)
+
+theorem readIpv4_stop (R : List UInt8) (hR : ColonOrEnd R) : readIpv4 R = none := by
+  have := readIpv4_none_of_span R (by simpa using spanDigits10_head [] R (by simp) hR)
+  exact this
+
+theorem readNumber16_stop (R : List UInt8) (hR : ColonOrEnd R) : readNumber 16 4 65535 true R = none := by
+  rcases hR with rfl | ⟨X, rfl⟩
+  · simp [readNumber, spanDigits]
+  · simp [readNumber, spanDigits, toDigit16_ne_colon.1]
+
+theorem ColonOrEnd.hex {R : List UInt8} (hR : ColonOrEnd R) : ∀ c t, R = c :: t → toDigit 16 c = none := by
+  intro c t h
+  rcases hR with rfl | ⟨X, rfl⟩
+  · cases h
+  · cases h; exact toDigit16_ne_colon.1
+
+/-- the text of a run of groups read from group index `i` on: a separating colon first if `i > 0` -/
+def groupsFrom (i : Nat) (gs : List Nat) (R : List UInt8) : List UInt8 :=
+  match gs with
+  | [] => R
+  | _ :: _ => (if i > 0 then [58] else []) ++ (groupsText gs ++ R)
+
+/-- `read_groups` reads a run of rendered groups and stops before `R` (the end, or `::`) -/
+theorem readGroups_run (L : Nat) (gs : List Nat) (hgs : ∀ g ∈ gs, g < 65536) (R : List UInt8)
+    (hR : R = [] ∨ ∃ X, R = 58 :: 58 :: X) (n i : Nat) (hn : gs.length ≤ n) :
+    readGroups L n i (groupsFrom i gs R) = (gs, false, R) := by
+  have hRc : ColonOrEnd R := by
+    rcases hR with h | ⟨X, h⟩
+    · exact .inl h
+    · exact .inr ⟨_, h⟩
+  -- the attempt that stops the run, on `R` itself
+  have hstop : ∀ m j, readGroups L m j R = ([], false, R) := by
+    intro m j
+    cases m with
+    | zero => rfl
+    | succ m =>
+      rw [readGroups]
+      have hv4 : (if j + 1 < L then readSep 58 j readIpv4 R else none) = none := by
+        split
+        · unfold readSep
+          split
+          · rcases hR with rfl | ⟨X, rfl⟩
+            · rfl
+            · simp [readChar, readIpv4_stop (58 :: X) (.inr ⟨X, rfl⟩)]
+          · exact readIpv4_stop R hRc
+        · rfl
+      have hnum : readSep 58 j (readNumber 16 4 65535 true) R = none := by
+        unfold readSep
+        split
+        · rcases hR with rfl | ⟨X, rfl⟩
+          · rfl
+          · simp [readChar, readNumber16_stop (58 :: X) (.inr ⟨X, rfl⟩)]
+        · exact readNumber16_stop R hRc
+      simp only [hv4, hnum]
+  induction gs generalizing n i with
+  | nil => exact hstop n i
+  | cons g gs ih =>
+    have hg := hgs g (by simp)
+    cases n with
+    | zero => simp at hn
+    | succ n =>
+      -- what follows the group `g`
+      have hfollow : ∃ F, groupsFrom i (g :: gs) R = (if i > 0 then [58] else []) ++ (hexText g ++ F) ∧
+          ColonOrEnd F ∧ F = groupsFrom (i + 1) gs R := by
+        cases gs with
+        | nil => exact ⟨R, by simp [groupsFrom, groupsText], hRc, rfl⟩
+        | cons g2 gs' =>
+          exact ⟨58 :: (groupsText (g2 :: gs') ++ R), by simp [groupsFrom, groupsText], .inr ⟨_, rfl⟩,
+            by simp [groupsFrom]⟩
+      obtain ⟨F, hF1, hF2, hF3⟩ := hfollow
+      rw [hF1, readGroups]
+      have hv4 : (if i + 1 < L then readSep 58 i readIpv4 ((if i > 0 then [58] else []) ++ (hexText g ++ F)) else none) = none := by
+        split
+        · unfold readSep
+          by_cases h0 : i > 0
+          · simp [h0, readChar, readIpv4_group g F hF2]
+          · simp [h0, readIpv4_group g F hF2]
+        · rfl
+      have hnum : readSep 58 i (readNumber 16 4 65535 true) ((if i > 0 then [58] else []) ++ (hexText g ++ F)) =
+          some (g, F) := by
+        unfold readSep
+        by_cases h0 : i > 0
+        · simp [h0, readChar, readNumber_hex g hg F hF2.hex]
+        · simp [h0, readNumber_hex g hg F hF2.hex]
+      simp only [hv4, hnum]
+      rw [hF3, ih (fun x hx => hgs x (by simp [hx])) n (i + 1) (by simpa using hn)]
+
+def zeros (n : Nat) : List Nat := List.replicate n 0
+
+theorem parseIpv6_compressed (hd tl : List Nat) (hlen : hd.length + tl.length ≤ 7)
+    (hhd : ∀ g ∈ hd, g < 65536) (htl : ∀ g ∈ tl, g < 65536) :
+    parseIpv6 (groupsText hd ++ (58 :: 58 :: groupsText tl)) =
+      some ((hd ++ List.replicate (8 - hd.length - tl.length) 0 ++ tl).flatMap u16be') := by
+  have h1 := readGroups_run 8 hd hhd (58 :: 58 :: groupsText tl) (.inr ⟨_, rfl⟩) 8 0 (by omega)
+  have e1 : groupsFrom 0 hd (58 :: 58 :: groupsText tl) = groupsText hd ++ (58 :: 58 :: groupsText tl) := by
+    cases hd <;> simp [groupsFrom, groupsText]
+  rw [e1] at h1
+  have h2 := readGroups_run (8 - (hd.length + 1)) tl htl [] (.inl rfl) (8 - (hd.length + 1)) 0 (by omega)
+  have e2 : groupsFrom 0 tl [] = groupsText tl := by
+    cases tl <;> simp [groupsFrom, groupsText]
+  rw [e2] at h2
+  have e3 : 8 - (hd.length + 1) = 7 - hd.length := by omega
+  rw [e3] at h2
+  unfold parseIpv6
+  have hne : (hd.length == 8) = false := by simp; omega
+  simp [h1, hne, readChar, h2]
+
 end QV.ZF
